@@ -928,9 +928,11 @@ class Curve(SplineGeometry):
 
     def reverse(self):
         """ Reverses the curve """
-        self._control_points = list(reversed(self._control_points))
+        new_ctrlpts = list(reversed(self._control_points))
         max_k = self.knotvector[-1]
         new_kv = [max_k - k for k in self.knotvector]
+        # Use the setter, so that all data derived from the control points is reset as well
+        self.set_ctrlpts(new_ctrlpts)
         self._knot_vector[0] = list(reversed(new_kv))
         self.reset(evalpts=True)
 
